@@ -282,3 +282,9 @@ package jobs
 //@   at call StoreObject#1 before
 //@     assert [C08:fullsync-token-stored-only-after-the-sync-completed] endOkG
 //@     assert [C08:token-stored-under-the-job-id] id == job.id
+
+//@ assumed (*JavascriptTransform).Clone
+//@   pure
+//@ assumed (*JavascriptTransform).transformEntities
+//@   modifies $transformCalls
+//@   ensures $transformCalls == old($transformCalls) + 1
